@@ -346,7 +346,7 @@ def run(ctx):
             hand.append({"id": fn[:-3], "path": path, "rule": rule, "expect": expect})
     n_hand_files = len(hand)
     # ---- generated lifetime-relation probes (entry point x receiver kind) -----------------------
-    life = c20_lifetimes.generate(os.path.join(work, "life"))
+    life = c20_lifetimes.generate(os.path.join(work, "life"), ctx["repo"])
     hand += life
     uncovered, n_entry_points = c20_lifetimes.coverage(ctx["repo"])
     # ---- generated auto-trait probes ----------------------------------------------------------
